@@ -26,6 +26,12 @@ def corpus():
                                 {"kind": "filler", "sub": [3], "reopen": False, "ops": [W(), W(1)]},
                                 {"kind": "filler", "sub": [], "reopen": False, "ops": [W()], "early": True},
                                 {"kind": "filler", "sub": [3], "reopen": False, "ops": [W(), W()], "early": True}]},
+        # datasets without checksum algorithms (nothing in the metadata changes when a list file is rewritten) written into repeatedly through one handle
+        {"eps": 2, "algs": [], "sessions": [{"kind": "filler", "sub": [], "reopen": False, "ops": [W(), W(), W()]},
+                                            {"kind": "filler", "sub": [], "reopen": False, "ops": [W(), W()]},
+                                            {"kind": "filler", "sub": [4], "reopen": False, "ops": [W(), W(1)]},
+                                            {"kind": "filler", "sub": [4], "reopen": False, "ops": [W(), W(), W()]},
+                                            {"kind": "multi", "reopen": False, "writers": [[W(), W()], [W(1)]]}]},
         # F1 witnesses: reuse of a sub-directory; a session in a known child's parent chain
         {"eps": 2, "sessions": [{"kind": "filler", "sub": [7], "reopen": False, "ops": [W(), W(), W()]},
                                 {"kind": "filler", "sub": [7], "reopen": False, "ops": [W()]}]},
